@@ -134,6 +134,24 @@ def check_nonec(ctx, case):
                           witness_type='legacy' if entry == 'HDKey_legacy' else 'segwit')
     try:
         k = make()
+        # read-only address requests on the key object before it is encrypted (its other public key form, its own
+        # form): the encrypted key is salted with the hash of the key's OWN address whatever was looked at before
+        for how in case.get('touch') or ():
+            try:
+                if how == 'other_form':
+                    k.address(compressed=not comp, encoding='base58', script_type='p2pkh')
+                elif how == 'uncompressed':
+                    k.address_uncompressed()
+                elif how == 'own':
+                    k.address()
+                elif how == 'address_obj':
+                    k.address_obj
+                elif how == 'segwit_form':
+                    k.address(encoding='bech32', script_type='p2wpkh')
+                elif how == 'p2sh_form':
+                    k.address(encoding='base58', script_type='p2sh_p2wpkh')
+            except Exception:
+                pass
         enc = k.encrypt(pw)
     except Exception as e:
         raise Discrepancy('nonec.encrypt.raises', '%s(%s, network=%r, compressed=%r).encrypt(%r) raised %r' %
@@ -430,15 +448,19 @@ def nonec_strategy(k=0):
     from vlib import gen
 
     def build(t):
-        secret, comp, net, pw, wm, entry = t
+        secret, comp, net, pw, wm, entry = t[:6]
         if entry == 'HDKey_segwit':
             comp = True
             pw = nfc(pw)
+        touch = t[6] if entry != 'HDKey_segwit' else []
         return {'kind': 'nonec', 'secret': '%064x' % secret, 'compressed': comp, 'network': net, 'passphrase': pw,
-                'wrong_mode': wm, 'entry': entry}
+                'wrong_mode': wm, 'entry': entry, 'touch': touch}
     return st.tuples(gen.secrets(), st.sampled_from(_rot([False, True], k)), _nets(k), passphrases(k),
                      st.sampled_from(_rot(WRONG_MODES, k)),
-                     st.sampled_from(_rot(['Key', 'Key', 'HDKey_legacy', 'Key', 'HDKey_segwit'], k))).map(build)
+                     st.sampled_from(_rot(['Key', 'Key', 'HDKey_legacy', 'Key', 'HDKey_segwit'], k)),
+                     st.one_of(st.just([]), st.lists(st.sampled_from(['other_form', 'uncompressed', 'own', 'address_obj',
+                                                                      'segwit_form', 'p2sh_form']), min_size=1, max_size=2))
+                     ).map(build)
 
 
 def ec_strategy(k=0):
